@@ -161,12 +161,15 @@ struct ListenerLog {
 }
 struct Listener {
     log: Arc<ListenerLog>,
-    ids: Arc<Mutex<HashMap<usize, String>>>,
+    recs_of: Arc<Mutex<HashMap<usize, Value>>>,
 }
 impl Listener {
     fn rec(&self, kind: &str, prev: cb::State, rule: &Arc<cb::Rule>) {
-        self.log.recs.lock().unwrap().push(json!({"to": kind, "prev": state_name(prev), "rule": rule.id}));
-        let _ = &self.ids;
+        let mut r = json!({"to": kind, "prev": state_name(prev), "rule": rule.id});
+        if let Some(d) = self.recs_of.lock().unwrap().get(&addr(rule)) {
+            r["rec"] = d.clone();
+        }
+        self.log.recs.lock().unwrap().push(r);
     }
 }
 fn state_name(s: cb::State) -> &'static str {
@@ -200,6 +203,7 @@ pub struct World {
     entries: BTreeMap<u64, EntryStrongPtr>,
     resources: BTreeSet<String>, // abstract names
     rule_ptrs: HashMap<usize, String>, // Arc data pointer -> rule id
+    rule_recs: Arc<Mutex<HashMap<usize, Value>>>, // Arc data pointer -> the rule description it was built from
     listener_log: Arc<ListenerLog>,
     obs_level: u8,
 }
@@ -217,6 +221,7 @@ impl World {
             entries: BTreeMap::new(),
             resources: BTreeSet::new(),
             rule_ptrs: HashMap::new(),
+            rule_recs: Arc::new(Mutex::new(HashMap::new())),
             listener_log: Arc::new(ListenerLog::default()),
             obs_level: 1,
         }
@@ -251,6 +256,7 @@ impl World {
         verif::system::set_system_load(0.0);
         verif::system::set_cpu_usage(0.0);
         self.rule_ptrs.clear();
+        self.rule_recs.lock().unwrap().clear();
         self.resources.clear();
         let _ = recorder::take_last();
         let _ = clock::take_sleeps();
@@ -303,7 +309,7 @@ impl World {
         self.listener_log = Arc::new(ListenerLog::default());
         cb::register_state_change_listeners(vec![Arc::new(Listener {
             log: self.listener_log.clone(),
-            ids: Arc::new(Mutex::new(HashMap::new())),
+            recs_of: self.rule_recs.clone(),
         })]);
         ev["ok"] = json!(true);
     }
@@ -326,11 +332,13 @@ impl World {
         let this: &World = self;
         let rn = |a: &str| this.rn(a);
         let mut ptrs: Vec<(usize, String)> = Vec::new();
+        let mut recs: Vec<(usize, Value)> = Vec::new();
         macro_rules! family {
             ($m:ident, $mk:expr, $has_res:expr) => {{
                 let rules: Vec<Arc<$m::Rule>> = descs.iter().map(|d| Arc::new($mk(d))).collect();
-                for r in &rules {
+                for (r, d) in rules.iter().zip(descs.iter()) {
                     ptrs.push((addr(r), r.id.clone()));
+                    recs.push((addr(r), d.clone()));
                 }
                 guarded(|| -> Value {
                     match op.as_str() {
@@ -397,6 +405,9 @@ impl World {
         };
         for (p, id) in ptrs {
             self.rule_ptrs.insert(p, id);
+        }
+        for (p, d) in recs {
+            self.rule_recs.lock().unwrap().insert(p, d);
         }
         match ret {
             Ok(v) => ev["ret"] = v,
@@ -490,6 +501,11 @@ impl World {
                 if let Some(rule) = be.triggered_rule() {
                     ev["rule"] = json!(self.rule_ptrs.get(&addr(&rule)).cloned().unwrap_or_else(|| "?".into()));
                     ev["rule_res"] = json!(self.abs_name(&rule.resource_name()));
+                    // the description the reported rule object was built from: an equal rule reloaded
+                    // under another id keeps its controller, so the id alone does not name it
+                    if let Some(d) = self.rule_recs.lock().unwrap().get(&addr(&rule)) {
+                        ev["rule_rec"] = d.clone();
+                    }
                 } else {
                     ev["rule"] = json!("none");
                 }
@@ -563,8 +579,12 @@ impl World {
                         .iter()
                         .map(|b| {
                             let nr = b.next_retry_timestamp_ms();
-                            json!({"rule": b.bound_rule().id, "st": state_name(b.current_state()),
-                                   "retry": if nr == 0 { -1 } else { nr as i64 - self.t0 as i64 }})
+                            let mut o = json!({"rule": b.bound_rule().id, "st": state_name(b.current_state()),
+                                   "retry": if nr == 0 { -1 } else { nr as i64 - self.t0 as i64 }});
+                            if let Some(d) = self.rule_recs.lock().unwrap().get(&addr(b.bound_rule())) {
+                                o["rec"] = d.clone();
+                            }
+                            o
                         })
                         .collect();
                     cbs.insert(r.clone(), Value::Array(l));
